@@ -46,7 +46,14 @@ void SoPlexBase<R>::_optimize(volatile bool* interrupt)
    // start timing
    _statistics->solvingTime->start();
 
-   if(boolParam(SoPlexBase<R>::PERSISTENTSCALING))
+   // unscale previously scaled problem, overwriting _realLP, if the scaler or persistent scaling has been switched off
+   if(_realLP->isScaled() && (!_scaler || !boolParam(SoPlexBase<R>::PERSISTENTSCALING)))
+   {
+      _solver.unscaleLPandReloadBasis();
+      _isRealLPScaled = false;
+      ++_unscaleCalls;
+   }
+   else if(boolParam(SoPlexBase<R>::PERSISTENTSCALING))
    {
       // scale original problem; overwriting _realLP
       if(_scaler && !_realLP->isScaled() && _reapplyPersistentScaling())
@@ -62,13 +69,6 @@ void SoPlexBase<R>::_optimize(volatile bool* interrupt)
 #ifdef SOPLEX_DEBUG
          _checkScaling(origLP);
 #endif
-      }
-      // unscale previously scaled problem, overwriting _realLP
-      else if(!_scaler && _realLP->isScaled())
-      {
-         _solver.unscaleLPandReloadBasis();
-         _isRealLPScaled = false;
-         ++_unscaleCalls;
       }
    }
 
